@@ -125,3 +125,19 @@ Example C18_nonvacuous :
     map (fun x => x_syms (xs_expr x)) (r_sites s') = [[1%nat]] /\ r_cfi s' = [(0%nat, [(7%nat, Some 1%nat)])] /\ r_fwd s' = [(3%nat, 1%nat)] /\
     r_edges s' = [(2%nat, 3%nat, 2%nat); (2%nat, 6%nat, ET_CALL)].
 Proof. eexists. split; [vm_compute; reflexivity|]. repeat split. Qed.
+
+(* The clause "return edges follow the calls (B's function returns to those call sites, A's no longer does)" is FALSE of the faithful
+   model: only Branch / Call edges are moved.  Block 2 calls symbol 0 (block 5, whose function returns from block 5 to the call's
+   return site 3); after retargeting 0 -> 1 (block 6) the Call edge leads to block 6, but block 5 still returns to 3 and block 6 does not.
+   Replayed on the implementation: known finding C18-return-edges-do-not-follow-retargeted-calls. *)
+Theorem C18_return_edges_follow_the_calls_refuted :
+  exists syms rmap s s',
+    retarget_symbol_uses syms [] rmap s = Ok s' /\
+    In (2%nat, 6%nat, ET_CALL) (r_edges s') /\ In (5%nat, 3%nat, 3%nat) (r_edges s') /\ ~ In (6%nat, 3%nat, 3%nat) (r_edges s').
+Proof.
+  exists [(0%nat, mk_sinfo (Some 5%nat) true true); (1%nat, mk_sinfo (Some 6%nat) true true)], [(0%nat, 1%nat)],
+         (mk_rstate [mk_xsite (0%nat, 1) (mk_xexpr true [0%nat] 0 []) 1 (Some 2%nat) true ACC_CF] [] []
+                    [(2%nat, 5%nat, ET_CALL); (2%nat, 3%nat, 2%nat); (5%nat, 3%nat, 3%nat); (6%nat, 100%nat, 3%nat)]).
+  eexists. split; [vm_compute; reflexivity|]. cbn. repeat split; try tauto.
+  intros [H|[H|[H|[H|[]]]]]; discriminate H.
+Qed.
